@@ -103,13 +103,13 @@ Lemma fold_add_need jobs root needs : forall props n,
   let props' := fold_left (add_need jobs root) needs props in
   (forall k t, lookup k props' = Some t -> exists j, find_job jobs k = Some j /\ t = needs_entry j) /\
   (In n (keys props') <->
-   In n (keys props) \/ (In n (map lower needs) /\ n <> j_rawid root /\ find_job jobs n <> None)).
+   In n (keys props) \/ (In n (map lower needs) /\ n <> lower (j_rawid root) /\ find_job jobs n <> None)).
 Proof.
   induction needs as [|id needs IH]; intros props n W; cbn [fold_left map].
   - split; [exact W|]. cbn. tauto.
   - assert (W1 : forall k t, lookup k (add_need jobs root props id) = Some t ->
                              exists j, find_job jobs k = Some j /\ t = needs_entry j).
-    { unfold add_need. destruct (String.eqb (lower id) (j_rawid root)); [exact W|].
+    { unfold add_need. destruct (String.eqb (lower id) (lower (j_rawid root))); [exact W|].
       destruct (lookup (lower id) props) eqn:L; [exact W|].
       destruct (find_job jobs (lower id)) as [j|] eqn:F; [|exact W].
       intros k t Lk. rewrite lookup_app in Lk. destruct (lookup k props) as [t0|] eqn:L0.
@@ -119,7 +119,7 @@ Proof.
     destruct (IH (add_need jobs root props id) n W1) as [IH1 IH2].
     split; [exact IH1|]. rewrite IH2. clear IH1 IH2 IH.
     cbn [In]. unfold add_need.
-    destruct (String.eqb (lower id) (j_rawid root)) eqn:E1.
+    destruct (String.eqb (lower id) (lower (j_rawid root))) eqn:E1.
     { apply String.eqb_eq in E1. split; [tauto|]. intros [H|[[H|H] [H2 H3]]]; auto. congruence. }
     destruct (lookup (lower id) props) as [t0|] eqn:L.
     { split; [tauto|]. intros [H|[[H|H] [H2 H3]]]; auto.
@@ -138,7 +138,7 @@ Qed.
    the job itself), compared case-insensitively — nothing transitive *)
 Theorem needs_scope_spec jobs job n :
   resolve (needs_scope jobs job) [n] = VUndefined <->
-  ~ (In n (map lower (j_needs job)) /\ n <> j_rawid job /\ find_job jobs n <> None).
+  ~ (In n (map lower (j_needs job)) /\ n <> lower (j_rawid job) /\ find_job jobs n <> None).
 Proof.
   unfold needs_scope, strict_obj. rewrite resolve_single_strict.
   destruct (fold_add_need jobs job (j_needs job) [] n) as [_ H]; [intros k t L; discriminate L|].
